@@ -7,6 +7,11 @@ namespace BM.Props
 
 def C10_units : List (String × String) := [
   ("sanitize.go/var/dataAttribute,dataAttributeXMLPrefix,dataAttributeInvalidChars,cssUnicodeChar,da", "2545e9727a056a18"),
+  ("sanitize.go/func/*Policy.Sanitize", "9ba7d669ac7a66cc"),
+  ("sanitize.go/func/*Policy.SanitizeBytes", "757e2ab378b5f7df"),
+  ("sanitize.go/func/*Policy.SanitizeReader", "08410f91f837f43a"),
+  ("sanitize.go/func/*Policy.SanitizeReaderToWriter", "567a76ba99acc83b"),
+  ("sanitize.go/func/*Policy.sanitizeWithBuff", "a00e1f64f0d0c903"),
   ("sanitize.go/func/*Policy.sanitizeAttrs/assign:hasStylePolicies", "d8da24d0fbb0b241"),
   ("sanitize.go/func/*Policy.sanitizeAttrs/assign:sps", "80bac3c862d757fd"),
   ("sanitize.go/func/*Policy.sanitizeAttrs/if:len(p.globalStyles) > 0 || (elementHasStylePolicies && len(s", "d8dee8fd87731ded"),
